@@ -6,24 +6,30 @@
 (* TLC -simulate (quick) or exhaustive BFS of a small depth (thorough).               *)
 EXTENDS H2Timers, TLC, Json
 
-CONSTANTS Depth, Side
+CONSTANTS Depth, Side,
+          Mode          \* "sim": many configurations, random walks; "bfs": a few configurations, every script of length Depth
 
 VARIABLES hist
 
 Cli(Rs, Ps, Ws, Hs) == [side : {"c"}, R : Rs, P : Ps, W : Ws, H : Hs, I : {0}, FS : {2}, PF : {10}, GA : {1}]
 Srv(Rs, Ps, Ws, Is, GAs) == [side : {"s"}, R : Rs, P : Ps, W : Ws, H : {0}, I : Is, FS : {2}, PF : {10}, GA : GAs]
 
-GenCfgs ==
+BfsCfgs ==
+    (IF "c" \in Side THEN Cli({2}, {3}, {0}, {2}) \cup Cli({0}, {2}, {2}, {0}) ELSE {})
+    \cup (IF "s" \in Side THEN Srv({2}, {1}, {0}, {3}, {1}) \cup Srv({0}, {2}, {2}, {2}, {1}) ELSE {})
+
+SimCfgs ==
     (IF "c" \in Side THEN Cli({2, 3}, {1, 2, 5}, {0}, {0, 2, 3}) \cup Cli({0}, {2}, {0, 2, 3}, {0, 3}) ELSE {})
     \cup (IF "s" \in Side THEN Srv({0, 2, 3}, {1, 2, 5}, {0}, {0, 2, 3, 5}, {1, 3}) \cup Srv({0}, {2}, {2, 3}, {0, 3}, {1}) ELSE {})
+
+GenCfgs == IF Mode = "bfs" THEN BfsCfgs ELSE SimCfgs
 
 GInit == cf \in GenCfgs /\ s = Init0(cf) /\ n = 0 /\ hist = <<>>
 
 \* the interesting part of a server connection starts after the handshake
 Useful(ev) == \/ s.phase = "run"
               \/ ev.k \in {"preface", "settings"}
-              \/ ev.k = "adv" /\ hist = <<>>
-              \/ ev.k = "adv" /\ Len(hist) < 3
+              \/ Mode = "sim" /\ ev.k = "adv" /\ Len(hist) < 3
 
 GNext == /\ Len(hist) < Depth /\ ~(s.closed /\ NextDeadline(s) < 0 /\ Len(hist) > 2)
          /\ n' = n /\ cf' = cf
